@@ -254,8 +254,8 @@ func (d *Decoder) readUntypedMap() (interface{}, error) {
 	return m, nil
 }
 
-func (d *Decoder) readMap(dest reflect.Value) error {
-	tag, err := d.readTag()
+func (d *Decoder) readMap(dest reflect.Value, flag int32) error {
+	tag, err := getTag(d.reader, flag)
 	if err != nil {
 		return tagReadError(err)
 	}
